@@ -256,3 +256,16 @@ CHECKS["C19"] = {
         {"pkg": "zkproof", "run": "TestVF_C19_GroupExp", "rapid": {"quick": 2000, "thorough": 30000}},
     ],
 }
+
+CHECKS["C16"] = {
+    "level": "exploration",
+    "technique": "volume generation of issuer keys at toy lengths (sequential and 2..8 concurrent generations), each key judged by independently written predicates (math/big primality, Jacobi symbols, orders, congruences mod 8, consistency of derived values, revocation key pair), goroutine accounting after every batch, and direct stop scripts for the concurrent safe-prime generator",
+    "level_text": "Every generated key must satisfy all structural predicates of the property; after each batch the goroutine count must return to its baseline within 5 s (otherwise the goroutine profile is stored as the finding); GenerateConcurrent is stopped in five different ways at different moments and must leave no worker.",
+    "level_note": "Schedules are whatever the Go scheduler produces (not seed-reproducible); generation that exceeds a generous time budget is reported as inconclusive, not as a violation. S generating QR_n is checked through its order; if S is not a generator (probability ~2^-(Ln/2)) subgroup membership is counted as undecided.",
+    "rule": ("case = one generated key pair (fresh random object) or one stop script. Non-trivial: every case; distinct by modulus N / by (stop style, size, results read, repetition); classes by (Ln, parallelism)."),
+    "assumptions": ["math/big primality testing and Jacobi symbols"],
+    "units": [
+        {"pkg": "gabikeys", "run": "TestVF_C16_Keys", "shards": {"quick": 4, "thorough": 8}, "timeout": {"quick": 900, "thorough": 3400}},
+        {"pkg": "safeprime", "run": "TestVF_C16_WorkerStop", "shards": {"quick": 2, "thorough": 4}, "timeout": {"quick": 600, "thorough": 3400}},
+    ],
+}
